@@ -1,7 +1,7 @@
 (* C15 -- the filter parser is total and only accepts what it can faithfully represent. *)
 From Coq Require Import ZArith NArith List Bool.
 From Coq.Strings Require Import Byte.
-From SV Require Import Base.Bytes Base.Py Rx.Syntax Gen.Generated Msg.Types Filt.Text Filt.Value Filt.Simple Filt.RoundTrip
+From SV Require Import Gen.Sharing Base.Bytes Base.Py Rx.Syntax Gen.Generated Msg.Types Filt.Text Filt.Value Filt.Simple Filt.RoundTrip
   Filt.Total Filt.Sound Filt.Range.
 Import ListNotations.
 
@@ -60,9 +60,17 @@ Example C15_examples :
   from_string 5 [40%N; 55296%N; 41%N] = FErr (FSyn 1 1).
 Proof. repeat split; vm_compute; reflexivity. Qed.
 
+(* The theorems above are about functions and values; that the text half of _filter.py (from_string, __str__ and their helpers) keeps no state
+   between calls and shares none between objects is read off the source by tools/audit.py on every run
+   (Gen/Sharing.v): no memoisation, no module- or class-level container that is written, no mutable default, no
+   attribute written behind a dataclass, no parameter stored without a copy. *)
+Theorem C15_audit_no_state_between_calls : (hidden_state_filter_text = [])%list.
+Proof. exact eq_refl. Qed.
+
 Print Assumptions C15_total.
 Print Assumptions C15_accepted_is_well_formed.
 Print Assumptions C15_accepted_reparses_to_itself.
 Print Assumptions C15_error_position_in_range.
 Print Assumptions C15_progress.
 Print Assumptions C15_attribute_pattern_refuted.
+Print Assumptions C15_audit_no_state_between_calls.
